@@ -331,19 +331,25 @@ def obs(x, B, seen=None, with_ident=True, light=False):
 
 
 def has_cycle(x):
-    return obs_cycle(x, ())
+    return obs_cycle(x, (), 0)
 
 
-def obs_cycle(x, seen):
+def obs_cycle(x, seen, depth):
     if x is None or isinstance(x, torch.Tensor) or not is_tensor_collection(x):
         return False
-    if id(x) in seen:
-        return True
+    if id(x) in seen or depth > 12:
+        return True           # (generated trees are at most 5 deep)
     try:
-        items = list(x.items())
+        if isinstance(x, LazyStackedTensorDict):
+            items = [(i, t) for i, t in enumerate(x.tensordicts)]
+        else:
+            td = x
+            if hasattr(x, "_tensordict") and not isinstance(x, (TensorDict, TensorDictParams)):
+                td = x._tensordict
+            items = [(k, td._get_str(k, None)) for k in list(td.keys())] if hasattr(td, "_get_str") else list(td.items())
     except Exception:  # noqa: BLE001
         return False
-    return any(obs_cycle(v, seen + (id(x),)) for _, v in items)
+    return any(obs_cycle(v, seen + (id(x),), depth + 1) for _, v in items)
 
 
 def type_name(x):
